@@ -11,7 +11,7 @@ Correspondence with coq/theories/Dump.v: the state parsed from the BAM (norm, mu
   after _make_coverage extended the aliased reference lists | Fixed) is detected by replaying the Coq witness on the implementation.
 Streams: plain, indels, structures, neutral-gap (no reads over part of the neutral region), outside-deletion (a heterozygous
   deletion outside the RefSeq window: in the pseudogene or in the flank next to the window), params; thorough adds NA10860."""
-import collections, copy, gzip, io, json, os, pickle, random, sys, tarfile, tempfile, time
+import collections, copy, gzip, io, json, os, pickle, random, shutil, sys, tarfile, tempfile, time
 from fractions import Fraction
 import common, e2e
 from common import cz, cq, cstr, clist
@@ -28,6 +28,8 @@ def gen_cases(rng, n):
         cases.append({"seed": rng.randrange(1 << 30), "stream": stream})
     for force in ("cn+min_avg_coverage", "cn+display_format"):
         cases.append({"seed": rng.randrange(1 << 30), "stream": "params", "force": force})
+    for st in ("plain", "indels"):
+        cases.append({"seed": rng.randrange(1 << 30), "stream": st, "reuse_path": True})
     return cases
 
 
@@ -50,6 +52,8 @@ def build_sample(case, d):
             opts.update(pseudogene=True, refseq_span="gene")
     yml, desc = gendb.write_db(d, rng, **opts)
     build = rng.choice(["hg19", "hg38"])
+    if case.get("force_build"):
+        build = case["force_build"]
     bd = desc["builds"][build]
     L, step = rng.choice([(100, 5), (150, 5), (100, 4)])
     prof = simreads.make_profile(desc, yml, build, L, step, d, rng, kind=rng.choice(["yaml", "yaml", "bam"]))
@@ -204,6 +208,25 @@ def run_case(case):
         pargs = [x for p in params for x in ("--param", p)]
         prefix = os.path.join(d, "dbg")
         out1, out2 = os.path.join(d, "run1.aldy"), os.path.join(d, "run2.aldy")
+        if case.get("reuse_path") and not case.get("shipped"):
+            # history: the SAME archive path was written and replayed before in this process, by a run on the other genome build of
+            # the same database (a user keeping one --debug prefix).  Nothing of that earlier archive may survive in the replay below.
+            other = "hg38" if build == "hg19" else "hg19"
+            d0 = os.path.join(d, "pre")
+            os.makedirs(d0)
+            try:
+                y0, desc0, b0, prof0, bam0, _, _, _ = build_sample(dict(case, force_build=other), d0)
+                a0 = ["genotype", bam0, "--gene", y0, "--profile", prof0["profile"], "--genome", b0]
+                if prof0["cn_region"] is not None:
+                    c0 = prof0["cn_region"]
+                    a0 += ["--cn-neutral-region", f"{c0.chr}:{c0.start}-{c0.end}"]
+                run_main(a0 + ["--output", os.path.join(d0, "r.aldy"), "--debug", prefix])
+                if os.path.exists(prefix + ".tar.gz"):
+                    run_main(["genotype", prefix + ".tar.gz", "--gene", y0, "--profile", prof0["profile"], "--output", os.path.join(d0, "r2.aldy")])
+                    os.remove(prefix + ".tar.gz")
+                shutil.rmtree(prefix, ignore_errors=True)
+            except Exception:   # the preliminary run is only a history; whatever it does, the main run and its replay are judged
+                pass
         r1, cap1 = run_main(args + ["--output", out1, "--debug", prefix] + pargs)
         archive = prefix + ".tar.gz"
         res = {"planted": alleles, "params": params, "extra": extra, "build": build, "run1": r1, "archive": os.path.exists(archive),
